@@ -60,6 +60,16 @@ def parseQuery (q : Bytes) : List (Bytes × Bytes) × Bool :=
         | none => (acc.1, true)
         | some v' => (acc.1 ++ [(k', v')], acc.2)) ([], false)
 
+/-- net/http `maxFormSize`: the largest `application/x-www-form-urlencoded` body `ParseForm` reads. -/
+def maxFormSize : Nat := 10485760
+
+/-- `http.Request.ParseForm` on a POST with an `application/x-www-form-urlencoded` body (request.go
+    `parsePostForm`): the body is read through `io.LimitReader(body, maxFormSize+1)`; more than
+    `maxFormSize` bytes is the error "http: POST too large" with no values at all; otherwise the **whole**
+    body goes to `url.ParseQuery`. No prefix of a body is ever parsed on its own. -/
+def parsePostForm (body : Bytes) : List (Bytes × Bytes) × Bool :=
+  if maxFormSize < body.length then ([], true) else parseQuery body
+
 /-- `Values[key]` -/
 def valuesOf (kvs : List (Bytes × Bytes)) (key : Str) : List Bytes :=
   (kvs.filter (·.1 == utf8Bytes key)).map (·.2)
@@ -83,7 +93,7 @@ structure Fields where
 /-- What `PublishHandler` reads from an `application/x-www-form-urlencoded` body; `none` when a field it
     reads is not valid UTF-8. -/
 def fieldsOf (body : Bytes) : Option Fields := do
-  let (kvs, err) := parseQuery body
+  let (kvs, err) := parsePostForm body
   let topics ← (valuesOf kvs "topic".toList).mapM toStr
   let retry ← toStr (getFirst kvs "retry".toList)
   let data ← toStr (getFirst kvs "data".toList)
